@@ -381,7 +381,10 @@ def d3_two_file_order(ctx, committer):
         for node, cal in ctx.E.callees(f):
             if not isinstance(node, ast.Call):
                 continue
-            if cal is committer and isinstance(node.func, ast.Attribute):
+            # a length commit of a sub-array: the committer itself, or a public append of the sub-array (which writes and
+            # commits in one call)
+            if (cal is committer or (cal.cls is committer.cls and cal.name in ('append', 'iterappend'))) and \
+                    isinstance(node.func, ast.Attribute):
                 r = subarray_role(ctx, node.func.value, f)
                 if r:
                     commits[r].append(node)
